@@ -131,7 +131,8 @@ func recvRun(c *corr.Ctx, h *RecvHistory, name string) {
 		}
 		for k, s := range seqs {
 			if haveLast && h.Unreliable && !(restart && k == 0) {
-				if int16(s-prev) <= 0 {
+				// "ahead" in the receiver's own sense: 1..2^15 positions after prev (Lean: Fwd)
+				if int16(s-prev-1) < 0 {
 					viol("delivered sequence numbers strictly increase modulo 2^16 (except across a detected restart)",
 						"recv-order", fmt.Sprintf("step %d delivered seq %d after %d", i, s, prev))
 				}
